@@ -79,7 +79,7 @@ def suite_fonts(ctx, res, n):
         r = random.Random(seed)
         fea = layoutgen.gen_fea(r)
         try:
-            font = layoutgen.build_font(fea)
+            font = layoutgen.build_font(fea, colr_rng=r)
         except Exception as e:  # noqa
             res.stat("fea-build-err:" + type(e).__name__)
             continue
@@ -103,7 +103,8 @@ def suite_fonts(ctx, res, n):
             new_order = [".notdef"] + new_order
             buf = io.BytesIO()
             font.save(buf)
-            f2 = ttLib.TTFont(io.BytesIO(buf.getvalue()), lazy=False)
+            # opened with default laziness, as users do; load_fully must make reordering safe
+            f2 = ttLib.TTFont(io.BytesIO(buf.getvalue())) if _p % 2 == 0 else ttLib.TTFont(io.BytesIO(buf.getvalue()), lazy=True)
             from nanoemoji.util import load_fully
             f2 = load_fully(f2)
             case = {"seed": seed, "order": new_order, "kind": kind}
@@ -133,7 +134,7 @@ def suite_fonts(ctx, res, n):
                 res.add_cex("a lookup applies a different substitution/positioning to some named glyph after reordering",
                             {"case": case, "fea": fea, "tables": diff, "detail": detail}, {"site": "reorder-meaning", "seed": seed, "order": stable_hash(new_order)})
             if layoutgen.name_keyed_basics(f3) != basics:
-                res.add_cex("cmap/hmtx/outlines changed for some named glyph after reordering", {"case": case}, {"site": "reorder-basics", "seed": seed})
+                res.add_cex("cmap/hmtx/outlines/colour records changed for some named glyph after reordering", {"case": case}, {"site": "reorder-basics", "seed": seed})
             bad = layoutgen.coverage_arrays_sorted(out.getvalue())
             if bad:
                 res.add_cex("a coverage table in the saved binary is not in increasing glyph-ID order", {"case": case, "coverage": bad[:3]},
